@@ -40,6 +40,7 @@ def check(ctx):
                       "everything __enter__ acquired", 4)
     ctx.rule("R15.3", "files are only ever created exclusively ('x'); 'r+' only on the file this run created; retry on name clash increments the serial", 3)
     ctx.rule("R15.4", "cancellation: the interrupt handler either resumes or cancels; a cancelled recorded stage still yields a Solution", 4)
+    ctx.rule("R15.11", "an error raised inside a step stops the run as that error (shared predicate with C12 R12.8)", 1)
     ctx.rule("R15.5", "a frame group is either complete or absent: failures while filling a created group remove it", 1)
     create_output(ctx)
     context_manager(ctx)
@@ -285,6 +286,11 @@ def cancellation(ctx):
     ctx.ob("R15.4", "run() returns False only for a cancelled thermalisation, True once the recorded stage was entered", not Vr["result"],
            detail=Vr["result"][:3], where=fr.fq, construct="returns of run()", message=f"{Vr['result'][:1]}",
            consequence="a cancelled recorded stage returns no Solution although frames were written")
+    errs = Vl["errors"] + Vr["errors"]
+    ctx.ob("R15.11", "an error raised by the update or the frame writer leaves the stage and run() as that error; no update runs after it", not errs,
+           detail=errs[:4], where=f.fq, construct="propagation of an error raised in a step", loc=loc(f, f.node),
+           message=f"an error raised inside a step is swallowed by the loop: {errs[:2]}",
+           consequence="a run that failed is reported as completed: frames after the failure are written from a state that was never computed")
     fs = repo.func(SOLVER, "TDGLSolver.solve")
     # solve() followed to its end (pvs/tables.py; private helpers of the solver included) for run() -> True / False
     from ..tables import solve_outcomes
